@@ -42,6 +42,14 @@ impl<'l, Data> SourceList<'l, Data> {
         }
     }
 
+    #[cfg(calloop_verif)]
+    pub(crate) fn verif_counts(&self) -> (usize, usize) {
+        (
+            self.sources.len(),
+            self.sources.iter().filter(|s| s.source.is_some()).count(),
+        )
+    }
+
     pub(crate) fn get(&self, token: TokenInner) -> crate::Result<&SourceEntry<'l, Data>> {
         let entry = self
             .sources
